@@ -91,50 +91,57 @@ Theorem C11_normal_dispatch : forall cdfband n q c l1 r1, c < 1 -> (30 < n)%Z ->
 Proof. exact quantile_ci_normal. Qed.
 Print Assumptions C11_normal_dispatch.
 
-(* n > 30.  For ANY non-decreasing Phi: with l - 1/2 the greatest half-integer <= l1 and r - 1/2 the
-   least half-integer >= r1 (outward rounding), the result is that band clamped to [0, n+1], or one
-   bucket shorter on the right with Ambiguous set exactly when the shorter band still has mass >= c and
-   strictly less than the symmetric one (and the band does not cover everything); Confidence is the
-   Phi-mass of the unclamped band, 1 when it covers [0, n+1]. *)
+(* n > 30 (the code after "fix: QuantileCI returns an empty or inverted interval for confidence <= 0
+   when n > 30").  For ANY Phi: with l0 - 1/2 the greatest half-integer <= l1 and r - 1/2 the least
+   half-integer >= r1 (outward rounding; the left end actually used is l = l0, except that an empty
+   rounded band keeps the bucket below r — l = l0 whenever l1 < r1, and always l <= l0, l < r), the
+   result is that band clamped to [0, n+1], or one bucket shorter on the right with Ambiguous set
+   exactly when the shorter band is not empty, still has mass >= c and strictly less than the
+   symmetric one (and the band does not cover everything); Confidence is the Phi-mass of the
+   unclamped band, 1 when it covers [0, n+1]. *)
 Theorem C11_normal_band : forall (Phi : Q -> Q) n c l1 r1,
-  let l := (Qround.Qfloor (l1 - (1 # 2)) + 1)%Z in
+  let l0 := (Qround.Qfloor (l1 - (1 # 2)) + 1)%Z in
   let r := (Qround.Qceiling (r1 - (1 # 2)) + 1)%Z in
-  let biased := Qle_bool c (band Phi l (r - 1)) && Qltb (band Phi l (r - 1)) (band Phi l r) in
+  let l := if (r <=? l0)%Z then (r - 1)%Z else l0 in
+  let biased := (l <? r - 1)%Z && Qle_bool c (band Phi l (r - 1)) && Qltb (band Phi l (r - 1)) (band Phi l r) in
   let r' := if biased then (r - 1)%Z else r in
   let full := (l <=? 0)%Z && (n + 1 <=? r')%Z in
   let res := qci_normal (band Phi) n c l1 r1 in
-  (inject_Z l - (1 # 2) <= l1 /\ l1 < inject_Z l + (1 # 2) /\ r1 <= inject_Z r - (1 # 2) /\ inject_Z r - (3 # 2) < r1) /\
+  (inject_Z l0 - (1 # 2) <= l1 /\ l1 < inject_Z l0 + (1 # 2) /\ r1 <= inject_Z r - (1 # 2) /\ inject_Z r - (3 # 2) < r1) /\
+  ((l <= l0)%Z /\ (l < r)%Z /\ (l1 < r1 -> l = l0) /\ (l1 <= r1 -> (l0 <= r)%Z)) /\
   r_lo res = Z.max l 0 /\ r_hi res = Z.min r' (n + 1) /\ r_amb res = (biased && negb full) /\
   r_conf res = (if full then 1 else band Phi l r').
 Proof. exact qci_normal_band_full. Qed.
 Print Assumptions C11_normal_band.
 
-(* Confidence is never below c when l1, r1 bracket the central mass c of a non-decreasing Phi *)
-Theorem C11_normal_conf_ge_c : forall (Phi : Q -> Q), (forall a b, a <= b -> Phi a <= Phi b) ->
-  forall n c l1 r1, c <= 1 -> Phi l1 <= (1 - c) / 2 -> 1 - (1 - c) / 2 <= Phi r1 ->
+(* Confidence is never below c when l1, r1 bracket the central mass 1 - 2 alpha of a non-decreasing
+   Phi, alpha = (1-c)/2 capped at 1/2 as in the code *)
+Theorem C11_normal_conf_ge_c : forall (Phi : Q -> Q) n c l1 r1, (forall a b, a <= b -> Phi a <= Phi b) ->
+  c <= 1 -> Phi l1 <= qci_alpha c -> 1 - qci_alpha c <= Phi r1 ->
   c <= r_conf (qci_normal (band Phi) n c l1 r1).
 Proof. exact qci_normal_conf_ge_c. Qed.
 Print Assumptions C11_normal_conf_ge_c.
 
-(* 0 <= LoOrder < HiOrder <= n+1 for 0 < c and a band symmetric about a mean inside [0, n] *)
-Theorem C11_normal_orders : forall (Phi : Q -> Q), (forall a b, a <= b -> Phi a <= Phi b) ->
-  forall n c l1 r1 mu, 0 < c -> l1 < r1 -> l1 + r1 == 2 * mu -> 0 <= mu <= inject_Z n -> (0 <= n)%Z ->
+(* 0 <= LoOrder < HiOrder <= n+1 for EVERY c (c <= 0 included) and any Phi, for a central interval
+   l1 <= r1 symmetric about a mean inside [0, n] *)
+Theorem C11_normal_orders : forall (Phi : Q -> Q) n c l1 r1 mu,
+  l1 <= r1 -> l1 + r1 == 2 * mu -> 0 <= mu <= inject_Z n -> (0 <= n)%Z ->
   let res := qci_normal (band Phi) n c l1 r1 in
   (0 <= r_lo res)%Z /\ (r_lo res < r_hi res)%Z /\ (r_hi res <= n + 1)%Z.
 Proof. exact qci_normal_orders. Qed.
 Print Assumptions C11_normal_orders.
 
-(* ... and the hypothesis 0 < c cannot be dropped: with c = 0 (alpha = 1/2, l1 = r1 = mu) the
-   left-biased trim accepts the EMPTY band (mass 0 >= c) and LoOrder = HiOrder.  The Go code does
-   the same (QuantileCI(31, 0.5, 0) = {LoOrder:16, HiOrder:16, Confidence:0}): the property's order
-   claim fails for c <= 0 when n > 30 (known finding, verdict code 11). *)
-Theorem C11_normal_orders_c0_refuted :
+(* the band logic of the tree BEFORE that fix ([qci_normal_pinned]: no empty-band guards) violates
+   the order claim at c = 0 (LoOrder = HiOrder; the code returned QuantileCI(31, 0.5, 0) =
+   {16, 16, Confidence 0}), on an input where the repaired model satisfies it *)
+Theorem C11_normal_orders_pinned_refuted :
   exists (Phi : Q -> Q) n c l1 r1 mu,
     (forall a b, a <= b -> Phi a <= Phi b) /\ c <= 0 /\ l1 <= r1 /\ l1 + r1 == 2 * mu /\
     0 <= mu <= inject_Z n /\ (0 <= n)%Z /\ Phi l1 == (1 - c) / 2 /\
-    let res := qci_normal (band Phi) n c l1 r1 in ~ (r_lo res < r_hi res)%Z.
-Proof. exact qci_normal_orders_c0_refuted. Qed.
-Print Assumptions C11_normal_orders_c0_refuted.
+    (let res := qci_normal_pinned (band Phi) n c l1 r1 in ~ (r_lo res < r_hi res)%Z) /\
+    (let res := qci_normal (band Phi) n c l1 r1 in (r_lo res < r_hi res)%Z).
+Proof. exact qci_normal_pinned_orders_refuted. Qed.
+Print Assumptions C11_normal_orders_pinned_refuted.
 
 (* SampleCI: the bounds are the order statistics LoOrder and HiOrder of a sorted permutation of the
    sample, -inf for order 0 and +inf for order n+1 *)
@@ -235,9 +242,15 @@ Example C11_normal_example :
   let Phi := fun t : Q => if Qle_bool t 40 then 0 else if Qle_bool 60 t then 1 else (t - 40) / 20 in
   let r := qci_normal (band Phi) 100 (2 # 5) (457 # 10) (543 # 10) in
   let r2 := qci_normal (band Phi) 100 (41 # 100) (457 # 10) (543 # 10) in
+  (* c = 0, l1 = r1 = 50: one bucket, not trimmed; l1 = r1 = 49.5 (on a band boundary): the bucket below *)
+  let r3 := qci_normal (band Phi) 100 0 50 50 in
+  let r4 := qci_normal (band Phi) 100 (-1 # 2) (99 # 2) (99 # 2) in
   (r_lo r, r_hi r, Qred (r_conf r), r_amb r) = (46%Z, 54%Z, 2 # 5, true) /\
-  (r_lo r2, r_hi r2, Qred (r_conf r2), r_amb r2) = (46%Z, 55%Z, 9 # 20, false).
-Proof. vm_compute. split; reflexivity. Qed.
+  (r_lo r2, r_hi r2, Qred (r_conf r2), r_amb r2) = (46%Z, 55%Z, 9 # 20, false) /\
+  (r_lo r3, r_hi r3, Qred (r_conf r3), r_amb r3) = (50%Z, 51%Z, 1 # 20, false) /\
+  (r_lo r4, r_hi r4, Qred (r_conf r4), r_amb r4) = (49%Z, 50%Z, 1 # 20, false) /\
+  qci_alpha (-1 # 2) = 1 # 2 /\ Qred (qci_alpha (9 # 10)) = 1 # 20.
+Proof. vm_compute. repeat split; reflexivity. Qed.
 
 Example C11_sample_example :
   sample_ci 4 0 3 false false [3; 1; 2; 1] = SciOk (XInf true) (XFin 2) [1; 1; 2; 3] /\
